@@ -354,4 +354,144 @@ theorem funcDef_ok (f : FDef) (hwf : WFFDef f) (hty : env.ty (dName f.d) = false
   rw [eb]
   simp only [hco', hntd, Bool.false_eq_true, ↓reduceIte, StmtSkel.bnd, hinfo', h10, StmtSkel.pur, FDef.vals, htn]
 
+/-- **`_parse_external_declaration`** on a file-scope declaration (the first declarator goes through
+`_parse_declarator` directly, unlike block-scope declarations) -/
+theorem extDcl_ok (dc : Dcl) (hwf : WFDcl dc) (hty : ∀ x ∈ dc.names, env.ty x = false)
+    (s : PState) (rest : List Tk) (hs : SeesT env s (dc.flat ++ rest)) (F : Nat) (hF : dc.fuel + 2 ≤ F) :
+    ∃ s', run F .externalDeclaration s = .ok (dc.vals s.idx) s' ∧ SeesT env s' rest ∧ s'.idx = s.idx + dc.ntoks := by
+  obtain ⟨G, rfl⟩ : ∃ G, F = G + 1 := ⟨F - 1, by omega⟩
+  simp only [Dcl.fuel] at hF
+  have hF1 : dc.first.d.fuel + starsNtoks (dStars dc.first.d) + DeclSkel.ofuel dc.first.init + 8 ≤ G := by
+    have : dc.first.fuel ≤ G := by omega
+    simpa [IDc.fuel] using this
+  obtain ⟨t, r, hsp, hk0, hk1, hk2, hk3, hk4, hk5⟩ := specs_head hwf.specToks hwf.sawType
+  obtain ⟨k1, v1, r1, hd1, hkd⟩ := declarator_head hwf.first.wfd hwf.first.noParen
+  obtain ⟨k2, v2, r2, hhd, hend⟩ := restFlat_head dc.more rest
+  -- what follows the first declarator
+  let tail1 : List Tk := (match dc.first.init with | none => [] | some e => ("EQUALS", "=") :: e.flat) ++ (k2, v2) :: r2
+  have hs0 : SeesT env s (dc.specs ++ (dc.first.d.flat ++ tail1)) := by
+    have : dc.flat ++ rest = dc.specs ++ (dc.first.d.flat ++ tail1) := by
+      simp only [Dcl.flat, Dcl.body, IDc.flat, List.append_assoc, tail1, ← hhd, List.cons_append, List.nil_append]
+      rfl
+    rw [this] at hs; exact hs
+  have hs0' : SeesT env s ((t.1, t.2) :: (r ++ (dc.first.d.flat ++ tail1))) := by rw [hsp] at hs0; simpa using hs0
+  obtain ⟨sa, hpa, hsa, _, hia, _⟩ := peek_spec s t.1 t.2 _ hs0'
+  obtain ⟨sb, hpb, hsb, hib⟩ := accept_other sa _ "SEMI" hsa (by
+    intro k' v' r' h; simp only [List.cons.injEq, Prod.mk.injEq] at h; rw [← h.1.1]; exact hk4)
+  have hsb' : SeesT env sb (dc.specs ++ (dc.first.d.flat ++ tail1)) := by rw [hsp]; simpa using hsb
+  have hfo : FollowSpec (dc.first.d.flat ++ tail1) := by
+    intro k v r' h
+    simp only [hd1, List.cons_append, List.cons.injEq, Prod.mk.injEq] at h
+    rw [← h.1.1]
+    rcases hkd with rfl | rfl <;> decide
+  obtain ⟨s1, h1, hs1, hi1⟩ := specs_loop dc.specs {} false false none sb _ G hwf.specToks hfo hsb' (by omega) (fun _ => rfl)
+  have eb : sb.idx = s.idx := by omega
+  rw [eb] at h1 hi1
+  have hne := sawAfter_ne_nil hwf.sawType
+  have hsome : (if (false || !dc.specs.isEmpty) = true then some (foldSpec s.idx {} dc.specs) else none) =
+      some (foldSpec s.idx {} dc.specs) := by
+    cases hsp' : dc.specs with
+    | nil => exact absurd hsp' hne
+    | cons t r => rfl
+  rw [hsome, hwf.sawType] at h1
+  have h1' : run G (.declSpecsLoop none false none) sb = .ok (some (foldSpec s.idx {} dc.specs), true, firstCoord none s.idx dc.specs) s1 := h1
+  obtain ⟨s3, hscan, s4, h4, hs4, hi4⟩ := scan_ok dc.first.d hwf.first.wfd hwf.first.noParen s1 _ hs1 G (by omega)
+  -- the token after the declarator: `=`, `,` or `;`
+  obtain ⟨k3, v3, r3, htl, hk3e⟩ : ∃ k v r, tail1 = (k, v) :: r ∧ (k = "EQUALS" ∨ EndsItem k) := by
+    cases hin : dc.first.init with
+    | none => exact ⟨k2, v2, r2, by simp [tail1, hin], .inr hend⟩
+    | some e => exact ⟨"EQUALS", "=", e.flat ++ (k2, v2) :: r2, by simp [tail1, hin], .inl rfl⟩
+  have hk3n : k3 ≠ "LBRACKET" ∧ k3 ≠ "LPAREN" ∧ k3 ≠ "LBRACE" ∧ inSet (some k3) declStart = false := by
+    rcases hk3e with rfl | rfl | rfl <;> exact ⟨by decide, by decide, by decide, by decide⟩
+  obtain ⟨s5, h5, hs5, hi5⟩ := parse_declarator dc.first.d hwf.first.wfd s4 _ hs4
+    (by intro k v r' h; rw [htl] at h; simp only [List.cons.injEq, Prod.mk.injEq] at h; rw [← h.1.1]; exact ⟨hk3n.1, hk3n.2.1⟩)
+    G (by omega)
+  rw [htl] at hs5
+  obtain ⟨s6, h6, hs6, hi6, _⟩ := peekType_spec s5 _ hs5
+  obtain ⟨s7, h7, hs7, hi7, _⟩ := peekType_spec s6 _ hs6
+  have horm : orM (peekIs "LBRACE") startsDeclaration s5 = .ok false s7 := by
+    have : (some k3 == some "LBRACE") = false := by simpa using hk3n.2.2.1
+    simp [orM, peekIs, StmtSkel.bnd, h6, StmtSkel.pur, this, startsDeclaration, h7, hk3n.2.2.2]
+  rw [← htl] at hs7
+  -- the initializer and the other declarators: as in `_parse_init_declarator`
+  obtain ⟨p0, names, htn, hok⟩ := specOK_fold dc.specs s.idx hwf.specToks hwf.specVals hwf.sawType
+  have e4 : s4.idx = s.idx + dc.specs.length := by omega
+  have e7 : s7.idx = s.idx + dc.specs.length + dc.first.d.ntoks := by omega
+  have hraw : chainVal (dc.first.d.chain s4.idx) (dc.first.d.td s4.idx) = (dc.first.di (s.idx + dc.specs.length)).raw := by
+    rw [e4]; simp [DI.raw, IDc.di, td_eq]
+  have hnames : ∀ d ∈ dc.dis s.idx, env.ty d.x = false := by
+    intro d hd
+    apply hty
+    simp only [Dcl.dis, List.mem_cons] at hd
+    rcases hd with rfl | hd
+    · exact List.mem_cons_self
+    · have : d.x ∈ (restDIs (s.idx + dc.specs.length + dc.first.ntoks) dc.more).map (·.x) := List.mem_map_of_mem hd
+      rw [restDIs_names] at this
+      exact List.mem_cons_of_mem _ this
+  have b1 : (t.1 == "PPHASH") = false := by simpa using hk1
+  have b2 : (t.1 == "PPPRAGMA" || t.1 == "_PRAGMA") = false := by simp [hk2, hk3]
+  have b5 : (t.1 == "_STATIC_ASSERT") = false := by simpa using hk5
+  have hnid : ((some "ID" : Option String) != some "ID") = false := rfl
+  have hc : declStart.contains t.1 = true := by simpa using hk0
+  have hreset : reset (s.idx + dc.specs.length) s3 = .ok () s4 := by rw [← hi1]; exact h4
+  have h5' : run G (.declaratorKind .id true) s4 = .ok (dc.first.di (s.idx + dc.specs.length)).raw s5 := by rw [h5, hraw]
+  cases hin : dc.first.init with
+  | none =>
+    have htl' : tail1 = (k2, v2) :: r2 := by simp [tail1, hin]
+    rw [htl'] at hs7
+    obtain ⟨s8, h8, hs8, hi8⟩ := accept_other s7 _ "EQUALS" hs7 (by
+      intro k v r' h; simp only [List.cons.injEq, Prod.mk.injEq] at h
+      rcases hend with h' | h' <;> rw [← h.1.1, h'] <;> decide)
+    rw [← hhd] at hs8
+    obtain ⟨s9, h9, hs9, hi9⟩ := initList_loop dc.more [(dc.first.di (s.idx + dc.specs.length)).info] s8 rest G hwf.more hs8 (by omega)
+    obtain ⟨s10, h10, hs10, hi10⟩ := buildDeclarations_ok (foldSpec s.idx {} dc.specs) p0 names hok
+      (dc.first.di (s.idx + dc.specs.length)) (restDIs (s.idx + dc.specs.length + dc.first.ntoks) dc.more) hnames s9 _ hs9
+    obtain ⟨s11, h11, hs11, hi11⟩ := expect_same s10 "SEMI" ";" rest hs10
+    refine ⟨s11, ?_, hs11, by simp only [Dcl.ntoks, IDc.ntoks, hin] at *; omega⟩
+    have e8 : s8.idx = s.idx + dc.specs.length + dc.first.ntoks := by simp only [IDc.ntoks, hin]; omega
+    rw [e8] at h9
+    have hinfo : ({ decl := (dc.first.di (s.idx + dc.specs.length)).raw, init := Val.none } : DeclInfo) =
+        (dc.first.di (s.idx + dc.specs.length)).info := by simp [DI.info, IDc.di, hin]
+    simp only [List.map_cons, List.singleton_append] at h9 h10
+    rw [← hinfo] at h9 h10
+    show pExternalDeclaration (run G) s = _
+    simp only [pExternalDeclaration, StmtSkel.bnd, hpa, b1, b2, hpb, b5, hc, Bool.false_eq_true, ↓reduceIte, Option.isSome_none,
+      Bool.not_true, pDeclSpecs, h1', requireSpec, Bool.false_and, StmtSkel.pur, mark, hscan, hi1, hreset, hnid, h5', horm, h8,
+      h9, h10, h11, Dcl.vals, htn, Dcl.dis, List.map_cons]
+  | some e =>
+    have hwe := hwf.first.wfx e hin
+    have htl' : tail1 = ("EQUALS", "=") :: (e.flat ++ (k2, v2) :: r2) := by simp [tail1, hin]
+    rw [htl'] at hs7
+    obtain ⟨s8, h8, hs8, hi8, _⟩ := accept_same s7 "EQUALS" "=" _ hs7
+    obtain ⟨te, re, hfl, hth, _⟩ := flat_heads hwe
+    have hnb : te.1 ≠ "LBRACE" := by intro h; rw [h] at hth; revert hth; decide
+    have hs8' : SeesT env s8 ((te.1, te.2) :: (re ++ (k2, v2) :: r2)) := by simpa [hfl] using hs8
+    obtain ⟨s9, h9, hs9, hi9⟩ := accept_other s8 _ "LBRACE" hs8' (by
+      intro k v r' h; simp only [List.cons.injEq, Prod.mk.injEq] at h; rw [← h.1.1]; exact hnb)
+    have hs9' : SeesT env s9 (e.flat ++ (k2, v2) :: r2) := by simpa [hfl] using hs9
+    obtain ⟨G', rfl⟩ : ∃ G', G = G' + 1 := ⟨G - 1, by have := FullExpr.fuel_ge e; simp [DeclSkel.ofuel, hin] at hF1; omega⟩
+    obtain ⟨sA, hA, hsA, hiA⟩ := (all_ok e).a hwe s9 (k2, v2) r2 hend.stopA hs9' G' (by simp [DeclSkel.ofuel, hin] at hF1; omega)
+    have e9 : s9.idx = s.idx + dc.specs.length + dc.first.d.ntoks + 1 := by omega
+    rw [e9] at hA
+    have hA' : run G' .assignmentExpression s9 = .ok (e.val (s.idx + dc.specs.length + dc.first.d.ntoks + 1)) sA := by simpa using hA
+    have hinit : run (G' + 1) .initializer s8 = .ok (e.val (s.idx + dc.specs.length + dc.first.d.ntoks + 1)) sA := by
+      show pInitializer (run G') s8 = _
+      simp [pInitializer, StmtSkel.bnd, h9, hA']
+    rw [← hhd] at hsA
+    obtain ⟨sB, hB, hsB, hiB⟩ := initList_loop dc.more [(dc.first.di (s.idx + dc.specs.length)).info] sA rest (G' + 1) hwf.more hsA (by omega)
+    obtain ⟨sC, hC, hsC, hiC⟩ := buildDeclarations_ok (foldSpec s.idx {} dc.specs) p0 names hok
+      (dc.first.di (s.idx + dc.specs.length)) (restDIs (s.idx + dc.specs.length + dc.first.ntoks) dc.more) hnames sB _ hsB
+    obtain ⟨sD, hD, hsD, hiD⟩ := expect_same sC "SEMI" ";" rest hsC
+    refine ⟨sD, ?_, hsD, by simp only [Dcl.ntoks, IDc.ntoks, hin] at *; omega⟩
+    have eA : sA.idx = s.idx + dc.specs.length + dc.first.ntoks := by simp only [IDc.ntoks, hin]; omega
+    rw [eA] at hB
+    have hinfo : (⟨(dc.first.di (s.idx + dc.specs.length)).raw, e.val (s.idx + dc.specs.length + dc.first.d.ntoks + 1), .none⟩ : DeclInfo) =
+        (dc.first.di (s.idx + dc.specs.length)).info := by simp [DI.info, IDc.di, hin]
+    simp only [List.map_cons, List.singleton_append] at hB hC
+    rw [← hinfo] at hB hC
+    show pExternalDeclaration (run (G' + 1)) s = _
+    simp only [pExternalDeclaration, StmtSkel.bnd, hpa, b1, b2, hpb, b5, hc, Bool.false_eq_true, ↓reduceIte, Option.isSome_none,
+      Bool.not_true, pDeclSpecs, h1', requireSpec, Bool.false_and, StmtSkel.pur, mark, hscan, hi1, hreset, hnid, h5', horm, h8,
+      Option.isSome_some, hinit, hB, hC, hD, Dcl.vals, htn, Dcl.dis, List.map_cons]
+
 end PycModel.TransUnit
